@@ -61,10 +61,17 @@ type Check struct {
 	Validate    int // number of path models per case to validate VM vs native (0 = default)
 	Race        bool // run native replays under the race detector
 	RecordStubs []string // functions the VM replaces by recording stubs
+	SelfTest    bool     // validate the string-level models against the native functions first
 	Timeout     map[string]time.Duration
 }
 
 var Registry = map[string]*Check{}
+
+var (
+	statsMuSelf    sync.Mutex
+	selfBad        []string
+	modelValidated int
+)
 
 func Register(c *Check) { Registry[c.ID] = c }
 
@@ -398,6 +405,31 @@ func Run(id, tier string, seed int, workers int) int {
 		}
 	}
 
+	selfN := 0
+	var selfWG sync.WaitGroup
+	if chk.SelfTest {
+		selfWG.Add(1)
+		go func() {
+			defer selfWG.Done()
+			m := vm.New(ld.Prog, ld.Pkgs, vm.RepoModule)
+			s, err := smt.NewSolver("z3", 8000)
+			if err != nil {
+				return
+			}
+			defer s.Close()
+			m.Solver = s
+			if err := m.InitRepo(nil); err != nil {
+				return
+			}
+			n, bad := m.SelfTest(3)
+			statsMuSelf.Lock()
+			selfN = n
+			for _, b := range bad {
+				selfBad = append(selfBad, "model validation mismatch (checks depending on this model are inconclusive): "+b)
+			}
+			statsMuSelf.Unlock()
+		}()
+	}
 	results := make([]caseOutcome, len(cases))
 	type concRec struct {
 		c      Case
@@ -492,6 +524,9 @@ func Run(id, tier string, seed int, workers int) int {
 		}()
 	}
 	wg.Wait()
+	selfWG.Wait()
+	toolErrors = append(toolErrors, selfBad...)
+	modelValidated = selfN
 	if os.Getenv("VERIF_SLOW") != "" {
 		fmt.Printf("PHASE explore done at %.1fs\n", time.Since(t0).Seconds())
 	}
@@ -810,6 +845,7 @@ func writeEvidence(chk *Check, tier string, seed int, t0 time.Time, results []ca
 	cov["stale_anchors"] = stale
 	cov["tool_errors"] = toolErrors
 	cov["known_findings_hit"] = knownHit
+	cov["model_validation_comparisons"] = modelValidated
 	cov["exhaustive"] = false
 	cov["explanation"] = "Bounded symbolic execution of the real code (go/ssa of /repo's working tree) with an SMT solver deciding every branch and assertion; 'states' = symbolic paths completed, 'transitions' = branch decisions resolved by the solver."
 	if st != nil {
